@@ -1,16 +1,16 @@
 SPECIFICATION Spec
 CONSTANTS
   MaxPool = 3
-  Strategy = "fanout"
-  Keys = {"-"}
-  Pools = {1, 2, 3}
+  Strategies = {"hash"}
+  Keys = {"a", "-"}
+  Pools = {2, 3}
   Presets = {0}
   Hi = 2
   Lo = 4
   VN = 1
-  H = 1
-  VTabs <- NoVTab
-  KTabs <- NoKTab
+  H = 4
+  VTabs <- AllVTab
+  KTabs <- AllKTab
   Defects = {}
 INVARIANTS TypeOK AliveInMap
 PROPERTIES NoDrop RoundRobin FanOut Sticky
